@@ -284,7 +284,10 @@ def build_gate(L: Any, t: dict, st: State) -> Any:
                 o = st.rho.get(("gate", i))
                 if o is not None and o["k"] != "ok":
                     raise build_exc(L, o)
-                r = {"proxy": "edge", "verified": "true"}
+                # a gate may pass a request it did not verify (allow mode): require_all(gate) then answers with an
+                # anonymous context instead of an authenticated one — either way the request is not rejected
+                r = ({"proxy": "", "verified": "false", "reason": "no_proof"} if o is not None and o.get("unverified")
+                     else {"proxy": "edge", "verified": "true"})
         except BaseException as e:
             st.obs[("gate", i)] = e
             raise
@@ -695,7 +698,7 @@ def gen_outcome(rng: Any, mode: str, gate: bool = False) -> dict:
     if gate:
         x = rng.random()
         if mode in ("all-missing", "all-af") or x < 0.72:
-            return {"k": "ok"}
+            return {"k": "ok", "unverified": True} if rng.random() < 0.2 else {"k": "ok"}
         if x < 0.86:
             return {"k": "pe", "cls": rng.choice(["ProofError", "PermissionError", "MyPE"]), "s": rng.choice(["no", "", None]),
                     "decl": rng.choice([None, None, "proxy_required", "missing_credential"])}
@@ -1160,14 +1163,15 @@ def run_compositions(ctx: Any, L: Any) -> None:
         tree = {"k": "req", "id": 1, "h": gh, "inner": {"k": "leaf", "id": 2, "h": []}}
         app = App(L, tree, None, False)
         notes = set()
-        for a, b in itertools.product(range(len(ALPHABET)), repeat=2):
-            req = {"rho": [["gate", 1, ALPHABET[a]], ["leaf", 2, ALPHABET[b]]], "accept": ACCEPTS[(a + b) % 4], "headers": {}}
+        galpha = ALPHABET + [{"k": "ok", "unverified": True}]  # a gate that passes without having verified
+        for a, b in itertools.product(range(len(galpha)), range(len(ALPHABET))):
+            req = {"rho": [["gate", 1, galpha[a]], ["leaf", 2, ALPHABET[b]]], "accept": ACCEPTS[(a + b) % 4], "headers": {}}
             run_request(ctx, app, req, notes, tags=("gen:exhaustive-require-all",))
         flush_requests(ctx, app)
         app = App(L, {"k": "gate", "id": 1, "h": gh}, None, False)
         notes = set()
-        for a in range(len(ALPHABET)):
-            run_request(ctx, app, {"rho": [["gate", 1, ALPHABET[a]]], "accept": ACCEPTS[a % 4], "headers": {}}, notes,
+        for a in range(len(galpha)):
+            run_request(ctx, app, {"rho": [["gate", 1, galpha[a]]], "accept": ACCEPTS[a % 4], "headers": {}}, notes,
                         tags=("gen:exhaustive-gate-only",))
         flush_requests(ctx, app)
     # single leaf x every outcome x every Accept value; no authenticator at all
